@@ -145,7 +145,16 @@ def make_case(rng, i):
     out = []
     for idx, st in enumerate(hist):
         for l in marks.get(idx, []):
-            out.append({"op": "add_listener", "providers": [l], "via": rng.choice(["listener", "listener", "observer"])})
+            provs = [l]
+            if rng.random() < 0.3:
+                # one call that names an already attached object (or the model) next to the new listener
+                already_now = early + [x for k_, ls in marks.items() if k_ < idx for x in ls]
+                if "model" in spec["providers"]:
+                    already_now = already_now + ["model"]
+                if already_now:
+                    provs = [rng.choice(already_now), l] if rng.random() < 0.7 else [l, rng.choice(already_now)]
+                    reattach += 1
+            out.append({"op": "add_listener", "providers": provs, "via": rng.choice(["listener", "listener", "observer"])})
         if rng.random() < 0.12 and (early or late):
             # re-attach an already attached listener: must not duplicate its calls
             already = early + [l for k_, ls in marks.items() if k_ <= idx for l in ls]
